@@ -480,7 +480,15 @@ pub fn one_run(sc: &Script, ex: &mut Explorer) -> (Vec<Value>, Value, bool) {
         }
         evs.push(Value::Object(m));
     }
-    let bad = !ended;
+    // a run that burns its whole step budget without reaching the end of its script is a node that
+    // spins on the peer's bytes: recorded as an event no specification step explains
+    let nodefail = run.events.iter().any(|e| e.a == "obs.nodefail");
+    if !ended && !nodefail {
+        let mut m = base("obs.wedged", "adv");
+        m.insert("steps".into(), json!(run.steps));
+        evs.push(Value::Object(m));
+    }
+    let bad = nodefail;
     let meta = json!({"family": "auth2", "roles": sc.roles.iter().map(|r| if *r { "server" } else { "client" }).collect::<Vec<_>>(),
                       "knows": sc.knows, "pipelined": sc.pipelined,
                       "script": sc.steps.iter().map(|(i, s)| format!("s{}:{}.{}{}{}", i + 1, s.c, s.k, if s.p.is_empty() { "" } else { "." }, s.p)).collect::<Vec<_>>(),
